@@ -214,6 +214,10 @@ def run(res, tier, build_ok):
     drv = Driver()
     reps = drv.batch([r[4] for r in reqs])
     for (name, key, d, back, line), rep in zip(reqs, reps):
+        if rep == "bad-op" and "=i-" in line:
+            # the implementation decoded a negative number: no model value corresponds to it (the models work on naturals)
+            res.tie_break("the implementation decoded a negative integer in %s" % key, {"structure": name, "dict": str(d)[:600]})
+            continue
         if rep == "bad-op":
             raise common.Infra("driver does not know " + line[:80])
         if rep != "ok " + hx(back):
